@@ -33,6 +33,13 @@ class Scenarios:
                            "twin": twin})
         return len(self.items) - 1
 
+    def _culprit(self, i, it):
+        c = it["meta"].get("culprit")
+        if not c:
+            return {"res": "", "line": 0, "kinds": ["none"], "value": ""}
+        return {"res": "%d/%s" % (i, c["file"]), "line": c["line"], "kinds": list(c["kinds"]),
+                "value": enc(c.get("value", ""))}
+
     # -- JSON for TLC -------------------------------------------------------
     def _include_args(self, lines):
         out = []
@@ -60,6 +67,7 @@ class Scenarios:
                         resolve["%d/%s|%s" % (i, name, enc(arg))] = ("%d/%s" % (i, target)) if target else ""
             scn.append({"sid": it["sid"] + 1, "main": "%d/%s" % (i, it["main"]),
                         "twin": 0 if it["twin"] is None else it["twin"] + 1,
+                        "culprit": self._culprit(i, it),
                         "opts": [{"path": [enc(p) for p in o["path"]], "val": enc(o["val"])} for o in it["opts"]]})
         return {"scn": scn, "res": res, "resolve": resolve}
 
@@ -95,7 +103,7 @@ class Scenarios:
     OVERRIDES = {"KeyConvOf": "MCKeyConvOf", "ConvOf": "MCConvOf", "SecConvOf": "MCSecConvOf",
                  "ResLines": "MCResLines", "Resolve": "MCResolve", "Package": "MCPackage",
                  "Schemas": "MCSchemas", "ScnSchema": "MCScnSchema", "ScnMain": "MCScnMain", "ScnOpts": "MCScnOpts",
-                 "ScnTwin": "MCScnTwin"}
+                 "ScnTwin": "MCScnTwin", "ScnCulprit": "MCScnCulprit"}
 
     def run_spec(self, chk, invariants=(), properties=(), workers=6, timeout=3000, extra_values=()):
         """Run TLC over all scenarios; returns the emitted record per scenario."""
@@ -107,7 +115,7 @@ class Scenarios:
                 json.dump(self.to_json(), f)
             cfg = flow.cfg_text(constants={"NScn": len(self.items)}, overrides=self.OVERRIDES,
                                 invariants=["STypeOK", "OnlyConfigErrors", "FramesAreOpenResources", "LifoClose",
-                                            "TwinSameOutcome"]
+                                            "TwinSameOutcome", "ErrorPositionIsCulprit"]
                                 + list(invariants) + ["Emit"],
                                 properties=["DefinesWriteOnce", "FailureIsFinal2"] + list(properties))
 
@@ -120,7 +128,14 @@ class Scenarios:
             shutil.rmtree(d, ignore_errors=True)
         chk.add_tlc(r)
         if r.violation:
-            raise MachineryError("design-level check failed in TLC: %s\n%s" % (r.violation, r.error_text))
+            import re
+            mm = re.findall(r"scn = (\d+)", r.error_text)
+            item = self.items[int(mm[-1]) - 1] if mm else None
+            tail = "\n".join(l for l in r.error_text.splitlines() if "out |->" in l or "kind |->" in l
+                             or "line |->" in l or "res |->" in l or "why |->" in l)[-1500:]
+            raise MachineryError("design-level check failed in TLC: %s\nscenario: %s\n%s" % (
+                r.violation, json.dumps({k: item[k] for k in ("files", "opts", "meta")}, default=str)[:3000]
+                if item else None, tail))
         if len(out) != len(self.items):
             raise MachineryError("TLC emitted %d outcomes for %d scenarios\n%s" % (len(out), len(self.items),
                                                                                "\n".join(r.raw_tail[-20:])))
